@@ -47,10 +47,16 @@ def interop_b(args):
     rnd = random.Random(f"{seed}-{alg}-{kind}-b")
     jwk = K.get(kind)
     pub = J.jkey(J.pub(jwk))
+    if jwk["kty"] == "oct":
+        # a shared secret handed over as octets: HMAC is keyed with exactly those octets, whatever they start or end with
+        from joserfc.jwk import OctKey
+        pub_bytes = OctKey.import_key(R.b64d(jwk["k"]))
     bad = []
     cnt = 0
     for raw in (False, True):
         for i in range(n):
+            if jwk["kty"] == "oct":
+                pub = pub_bytes if (i + raw) % 2 == 0 else J.jkey(J.pub(jwk))
             hd = {"alg": alg, "cty": "t/x é", "x5t": "dGh1bWI"}
             if raw:
                 hd.update({"b64": False, "crit": ["b64"]})
